@@ -234,7 +234,7 @@ Definition pres_eqb (a b : pres) : bool :=
     anything), what fetching the stored string as a URL gives (the block's bytes
     from the harness' HTTP server, or an error), what Get answered and the
     status class Verify reported. *)
-Record case := Case {
+Record single := Case {
   k_root : str;
   k_path : str;
   k_put_files : bool;
@@ -252,7 +252,7 @@ Definition of_kind (k : fkind) : gres :=
   match k with FRegular => GSame | FMissing => GNotFound | FOther => GOther end.
 
 (** the model's prediction of Get for what Put stored *)
-Definition model_get (k : case) (stored : pres) : gres :=
+Definition model_get (k : single) (stored : pres) : gres :=
   match stored with
   | PStored s =>
       match read_disp (k_get_files k) (k_get_urls k) (k_root k) s with
@@ -267,7 +267,7 @@ Definition model_get (k : case) (stored : pres) : gres :=
 Definition verify_of (g : gres) : gres := match g with GNotEnabled => GOther | x => x end.
 
 (** the model's prediction under defect flag [f] *)
-Definition model_eq (f : bool) (k : case) : bool :=
+Definition model_eq (f : bool) (k : single) : bool :=
   let m := put_ref f (k_put_files k) (k_put_urls k) (k_root k) (k_path k) in
   pres_eqb m (k_put k) &&
   gres_eqb (k_get k) (model_get k m) &&
@@ -280,7 +280,7 @@ Definition model_eq (f : bool) (k : case) : bool :=
       reference only by the URL reader and only when AllowUrls is on (never from a
       local file), a file reference only from a local path inside the root and
       only when AllowFiles is on. *)
-Definition served_ok (k : case) (g : gres) : bool :=
+Definition served_ok (k : single) (g : gres) : bool :=
   match g, k_put k with
   | GSame, PStored s =>
       if is_url s then k_get_urls k
@@ -289,11 +289,11 @@ Definition served_ok (k : case) (g : gres) : bool :=
   | _, _ => true
   end.
 
-Definition spec_case (k : case) : bool :=
+Definition spec_case (k : single) : bool :=
   (match k_put k with PStored s => confined (k_root k) s | _ => true end) &&
   served_ok k (k_get k) && served_ok k (k_verify k).
 
-Definition check_case (k : case) : verdict :=
+Definition check_single (k : single) : verdict :=
   if spec_case k then
     (if model_eq false k || model_eq true k then VOk else VModelMismatch)
   else
@@ -304,3 +304,53 @@ Definition check_case (k : case) : verdict :=
         | _ => true
         end)
     then VKnown 1 else VSpecFail.
+
+(** ---------- PutMany ---------- *)
+(** FileManager.PutMany: every element goes through putTo on one datastore batch;
+    the first error aborts (nothing is committed), otherwise all references are
+    stored.  Every element is checked against the root on its own: its outcome
+    never depends on its neighbours. *)
+Fixpoint batch_put (f : bool) (allow_files allow_urls : bool) (root : str) (paths : list str) : option (list str) :=
+  match paths with
+  | [] => Some []
+  | p :: r =>
+      match put_ref f allow_files allow_urls root p with
+      | PStored s => option_map (cons s) (batch_put f allow_files allow_urls root r)
+      | _ => None
+      end
+  end.
+
+Fixpoint all2 {A B} (t : A -> B -> bool) (l1 : list A) (l2 : list B) : bool :=
+  match l1, l2 with
+  | [], [] => true
+  | a :: r1, b :: r2 => t a b && all2 t r1 r2
+  | _, _ => false
+  end.
+
+(** A batch case: the elements of one PutMany call (same root and flags in every
+    element); [k_put] of an element is [PStored s] with the reference read back
+    from the datastore when the batch was committed, [PRejected] when PutMany
+    returned an error. *)
+Definition batch_model_eq (f : bool) (els : list single) : bool :=
+  match els with
+  | [] => true
+  | k0 :: _ =>
+      let eff :=
+        match batch_put f (k_put_files k0) (k_put_urls k0) (k_root k0) (map k_path els) with
+        | Some ss => map PStored ss
+        | None => map (fun _ => PRejected) els
+        end in
+      all2 (fun k p => pres_eqb p (k_put k) && gres_eqb (k_get k) (model_get k p) &&
+                       gres_eqb (k_verify k) (verify_of (model_get k p))) els eff
+  end.
+
+Inductive case :=
+| CSingle (k : single)
+| CBatch (els : list single).
+
+Definition check_case (c : case) : verdict :=
+  match c with
+  | CSingle k => check_single k
+  | CBatch els =>
+      verdict_of (batch_model_eq false els || batch_model_eq true els) (forallb spec_case els)
+  end.
